@@ -2,11 +2,11 @@ ID = "C20"
 LEVEL = "model_checking"
 MIRSYM = "C20"
 BOUNDS = ("scripts of 0..3 (quick) / 0..5 (thorough) inserts into ArrayParams and ObjectParams, every insert's serialisation succeeding or failing "
-          "(with empty or non-empty partial output) as the solver chooses; all 16 tuple impls; Kani: one insert of any u8 / bool at byte level")
+          "(with empty or non-empty partial output) as the solver chooses; all 16 tuple impls; Kani: one insert of any u8 / bool at byte level; whole-value impls (map, slice, vector, array, tuples) for success / failure of the serialisation")
 EXPLANATION = ("Symbolic execution of the rustc MIR of ParamsBuilder::{maybe_initialize,insert,insert_named,build} and the ArrayParams/ObjectParams wrappers "
                "over insert scripts, with the byte buffer abstracted to a segment list and serde_json::to_writer as a contract (ok => complete JSON text, "
                "else arbitrary prefix + Err); z3 decides that the built text is exactly open + successful values + close, cvc5 cross-checks; "
-               "violating scripts are replayed against the real builders.")
+               "violating scripts are replayed against the real builders. Sequences and maps are serialised as the one JSON value they are (an empty slice is [], not 'no params').")
 TRUSTED = ["rustc MIR dump", "z3 / cvc5", "serde_json::to_writer contract as stated in coverage.models", "serde's tuple Serialize impls"]
 OUTSIDE = ["serde_json::to_writer itself ('parses back' is replaced by: the text is the bracketed, comma-joined concatenation of serde_json's own output per value)",
            "rpc_params! macro expansion (it only calls ArrayParams::insert)"]
